@@ -2352,6 +2352,40 @@ private:
       return LPRowSetBase<R>::rowVector_w(i);
    }
 
+   /// appends default columns until all indices of \p vec refer to existing columns
+   void createMissingCols(const SVectorBase<R>& vec)
+   {
+      int maxIdx = -1;
+
+      for(int j = vec.size() - 1; j >= 0; --j)
+         maxIdx = (vec.index(j) > maxIdx) ? vec.index(j) : maxIdx;
+
+      if(maxIdx >= nCols())
+      {
+         LPColBase<R> empty;
+
+         for(int k = nCols(); k <= maxIdx; ++k)
+            LPColSetBase<R>::add(empty);
+      }
+   }
+
+   /// appends default rows until all indices of \p vec refer to existing rows
+   void createMissingRows(const SVectorBase<R>& vec)
+   {
+      int maxIdx = -1;
+
+      for(int j = vec.size() - 1; j >= 0; --j)
+         maxIdx = (vec.index(j) > maxIdx) ? vec.index(j) : maxIdx;
+
+      if(maxIdx >= nRows())
+      {
+         LPRowBase<R> empty;
+
+         for(int k = nRows(); k <= maxIdx; ++k)
+            LPRowSetBase<R>::add(empty);
+      }
+   }
+
    ///
    void doAddRow(const LPRowBase<R>& row, bool scale = false)
    {
@@ -2360,6 +2394,9 @@ private:
       int newRowScaleExp = 0;
 
       LPRowSetBase<R>::add(row);
+
+      // create new columns if required; this has to happen before the column scaling exponents are read
+      createMissingCols(rowVector_w(idx));
 
       SVectorBase<R>& vec = rowVector_w(idx);
 
@@ -2418,6 +2455,9 @@ private:
       int newRowScaleExp = 0;
 
       LPRowSetBase<R>::add(lhsValue, rowVec, rhsValue);
+
+      // create new columns if required; this has to happen before the column scaling exponents are read
+      createMissingCols(rowVec);
 
       DataArray <int>& colscaleExp = LPColSetBase<R>::scaleExp;
 
@@ -2594,6 +2634,9 @@ private:
       if(thesense != MAXIMIZE)
          LPColSetBase<R>::maxObj_w(idx) *= -1;
 
+      // create new rows if required; this has to happen before the row scaling exponents are read
+      createMissingRows(colVector_w(idx));
+
       SVectorBase<R>& vec = colVector_w(idx);
 
       DataArray <int>& rowscaleExp = LPRowSetBase<R>::scaleExp;
@@ -2654,6 +2697,9 @@ private:
 
       if(thesense != MAXIMIZE)
          LPColSetBase<R>::maxObj_w(idx) *= -1;
+
+      // create new rows if required; this has to happen before the row scaling exponents are read
+      createMissingRows(colVec);
 
       DataArray <int>& rowscaleExp = LPRowSetBase<R>::scaleExp;
 
